@@ -787,6 +787,101 @@ class Gen:
         return out
 
 
+
+# ------------------------------------------------------------------ exhaustive blocks
+MODRM_FORMS = [
+    (0, 3, ""),                 # [rbx]
+    (1, 0, "f8"),               # [rax - 8]
+    (2, 3, "00100000"),         # [rbx + 0x1000]
+    (3, 0, ""),                 # register operand
+    (0, 4, "c5f8ffffff"),       # SIB: [rax * 8 - 8]
+    (0, 5, "00000000"),         # [rip + 0]
+]
+
+
+def opcode_table(tier):
+    """Instruction encodings <prefix> <map> <opcode> <ModRM(mod, reg, rm)> [SIB] [disp] + 8 zero bytes of immediate.
+    quick: the memory form [rbx] for the full product (one-byte and 0f maps) x (no prefix, REX.W) x opcode x reg, and
+    one of the other five forms per (opcode, reg); thorough: every form, more prefixes, the 0f38 / 0f3a maps."""
+    out = []
+    pad = "00" * 8
+    def enc(prefix, mp, b, reg, form):
+        mod, rm, tail = MODRM_FORMS[form]
+        return "%s%s%02x%02x%s%s" % (prefix, mp, b, (mod << 6) | (reg << 3) | rm, tail, pad)
+    if tier == "quick":
+        for mp in ("", "0f"):
+            for prefix in ("", "48"):
+                for b in range(256):
+                    for reg in range(8):
+                        out.append(enc(prefix, mp, b, reg, 0))
+                        if prefix == "":
+                            out.append(enc(prefix, mp, b, reg, 1 + (b + reg) % 5))
+    else:
+        for mp in ("", "0f"):
+            for prefix in ("", "48", "66", "f3"):
+                for b in range(256):
+                    for reg in range(8):
+                        for form in range(6):
+                            out.append(enc(prefix, mp, b, reg, form))
+        for mp in ("0f38", "0f3a"):
+            for prefix in ("", "66"):
+                for b in range(256):
+                    for reg in range(8):
+                        for form in (0, 3):
+                            out.append(enc(prefix, mp, b, reg, form))
+    return out
+
+
+WIN_BOUNDS = ["0", "1", "2", "4", "2147483647", "2147483648", "2147483649", "4294967294", "4294967295", "-1", "-2", "-2147483648"]
+CFI_BOUNDS = ["0", "1", "2", "8", "-1", "-2", "2147483648", "4294967295", "4294967296", "9223372036854775807", "-9223372036854775808",
+              "9223372036854775808", "18446744073709551615"]
+BIN_OPS = ["+", "-", "*", "/", "%", "@"]
+
+
+def operator_block(tier):
+    """One small dump per (operator, lhs, rhs): an x86 thread in a module whose STACK WIN program computes `lhs rhs op`
+    before recovering the caller, and threads (amd64; thorough: x86, arm, arm64, mips too) in a module whose STACK CFI rule
+    computes it as the CFA; plus the dereference `^` of every boundary."""
+    out = []
+    mod = "M=4194304:4096:%s:0" % hx(b"/m/ops.so")
+    ret = 0x400020
+    def stack(w):
+        return hx(b"".join(le(v, w) for v in [ret, 0x10010, ret, 0x10020, ret, 0x10030, ret, ret] * 2))
+    def case(cpu, os_, sym, regs, w, opt):
+        return "D cpu=%s os=%s opt=%d S=%s %s T=1:65536:%s:%s" % (cpu, os_, opt, hx(sym.encode()), mod, stack(w), regs)
+    head = "MODULE windows %s 000000000000000000000000000000000 ops.pdb\nFUNC 0 1000 0 f\n"
+    n = 0
+    for op in BIN_OPS + ["^"]:
+        for a in WIN_BOUNDS:
+            for b in (WIN_BOUNDS if op != "^" else [""]):
+                expr = "%s %s %s" % (a, b, op) if op != "^" else "%s ^" % a
+                prog = rng_free_choice(n, ["$T0 %s = $eip $T0 ^ = $esp $T0 4 + =", "$eip %s = $esp $esp 4 + =",
+                                           "$T0 $esp %s + = $eip $T0 ^ = $esp $T0 4 + = $ebp %s ="]) 
+                prog = prog.replace("%s", expr)
+                sym = head % "x86" + "STACK WIN 4 0 1000 0 0 0 0 0 0 1 %s\n" % prog
+                out.append(case("x86", "win", sym, "eip=4194320,esp=65536,ebp=65552", 4, [0, 2][n % 2]))
+                n += 1
+    cpus = [("amd64", 8, "$rsp", "rip=4194320,rsp=65536,rbp=65552")]
+    if tier != "quick":
+        cpus += [("x86", 4, "$esp", "eip=4194320,esp=65536,ebp=65552"), ("arm64", 8, "sp", "pc=4194320,sp=65536,fp=65552,x29=65552,lr=4194336,x30=4194336"),
+                 ("arm", 4, "sp", "pc=4194320,r15=4194320,sp=65536,r13=65536,r11=65552,r7=65552,lr=4194336,r14=4194336"),
+                 ("mips", 4, "$sp", "pc=4194320,sp=65536,fp=65552,ra=4194336")]
+    for cpu, w, sp, regs in cpus:
+        for op in BIN_OPS + ["^"]:
+            for a in CFI_BOUNDS:
+                for b in (CFI_BOUNDS if op != "^" else [""]):
+                    expr = "%s %s %s" % (a, b, op) if op != "^" else "%s ^" % a
+                    rule = rng_free_choice(n, [".cfa: %s .ra: .cfa ^", ".cfa: " + sp + " %s + .ra: .cfa " + str(w) + " - ^",
+                                               ".cfa: " + sp + " " + str(2 * w) + " + .ra: %s"]).replace("%s", expr)
+                    sym = head % cpu + "STACK CFI INIT 0 1000 %s\n" % rule
+                    out.append(case(cpu, ["linux", "win", "mac"][n % 3], sym, regs, w, [0, 2][n % 2]))
+                    n += 1
+    return out
+
+
+def rng_free_choice(n, l):
+    return l[n % len(l)]
+
 CPU_BUDGET_BASE_MS = 10000         # the same constants as harness/src/bin/c03.rs
 CPU_BUDGET_BYTES_PER_MS = 2
 SYM_CALLS_PER_FRAME = 200          # measured maximum is far below (scan window 40 words x 2 lookups + CFI + symbolication)
@@ -863,21 +958,21 @@ class C03(PropBase):
         g = Gen(rng)
         nd, nf, ns = (9000, 1500, 6000) if tier == "quick" else (120000, 12000, 60000)
         cases = g.site_cases(ns)
-        # exhaustive block: every one-byte opcode and every 0x0f two-byte opcode, with four modrm bytes, at rsp in {0, 4096}
-        ops = []
-        step = 4 if tier == "quick" else 1
-        for b in range(0, 256):
-            for modrm in ("00", "30", "10", "c0", "04c5f8ffffff", "2500000000")[:: (2 if tier == "quick" else 1)]:
-                ops.append("%02x%s" % (b, modrm))
-                if b % step == 0:
-                    ops.append("0f%02x%s" % (b, modrm))
-                    ops.append("48%02x%s" % (b, modrm))
+        # exhaustive block 1: amd64 instruction bytes at the crashing rip, generated from the opcode / ModRM table —
+        # every opcode byte of the one-byte and 0f maps x every ModRM reg field (group opcodes select the operation with
+        # it: 80/81/83, c0/c1/d0-d3, f6/f7 /0../7, fe/ff, 0f 00/01/ba/c7 ...) x operand forms, with REX.W and without
+        ops = opcode_table(tier)
         for i, ins in enumerate(ops):
             rsp = [0, 4096, 7][i % 3]
             cases.append("D cpu=amd64 os=%s opt=0 T=1:65536:z64:rip=4194304,rsp=%d X=1:11:0:0:0:0:0:rip=4194304,rsp=%d,rax=%d,rbx=20480 R=4194304:%s maps=%s"
                          % (["linux", "win"][i % 2], rsp, rsp, [0, U64 - 3, 20480][i % 3], ins,
                             hx(maps_line(0x5000, 0x5fff, "---p").encode())))
         g.dist["opcode_block"] = len(ops)
+        # exhaustive block 2: every STACK WIN / STACK CFI operator on every pair of boundary operands, in a symbol file
+        # that covers the frame being walked
+        ob = operator_block(tier)
+        cases += ob
+        g.dist["operator_block"] = len(ob)
         for _ in range(nd):
             cases.append(g.dump_case())
         for _ in range(nf):
